@@ -27,6 +27,7 @@ pub struct Hdr {
     pub flags: u32,
     pub pairs: Vec<Pair>,
     /// WotLK+: number of skin profiles (replaces the views array)
+    #[allow(dead_code)]
     pub nviews: Option<u32>,
     /// bounding box min/max, radius, collision box min/max, radius (raw bits)
     pub floats: [u32; 14],
@@ -345,6 +346,7 @@ pub fn track_slots(name: &str, version: u32) -> Vec<(usize, usize)> {
         "cameras" => vec![(16, 12), (16 + block + 12, 12), (16 + 2 * (block + 12), 4)],
         "lights" => vec![(16, 12), (16 + block, 12), (16 + 2 * block, 4), (16 + 3 * block, 4), (16 + 4 * block, 4)],
         "ribbon_emitters" => vec![(32, 12), (32 + block, 4), (32 + 2 * block, 4), (32 + 3 * block, 4)],
+        "particle_emitters" => [4usize, 4, 4, 8, 4, 12, 4, 4, 4, 4].iter().enumerate().map(|(k, v)| (264 + k * block, *v)).collect(),
         _ => vec![],
     }
 }
